@@ -4,6 +4,7 @@ import (
 	"crypto/rand"
 	"errors"
 	"fmt"
+	"github.com/fxamacker/cbor/v2"
 
 	"github.com/taurusgroup/multi-party-sig/internal/bip32"
 	"github.com/taurusgroup/multi-party-sig/internal/ot"
@@ -28,10 +29,28 @@ type ConfigReceiver struct {
 	ChainKey []byte
 }
 
+// UnmarshalCBOR restores a configuration (into a value created with EmptyConfigReceiver) and validates it.
+func (c *ConfigReceiver) UnmarshalCBOR(data []byte) (err error) {
+	// a null where a point or scalar is expected makes the CBOR decoder panic
+	defer func() {
+		if rec := recover(); rec != nil {
+			err = fmt.Errorf("doerner: malformed config: %v", rec)
+		}
+	}()
+	type plain ConfigReceiver // same fields, no UnmarshalCBOR
+	if err = cbor.Unmarshal(data, (*plain)(c)); err != nil {
+		return err
+	}
+	return c.Validate()
+}
+
 // Validate checks that this configuration can take part in a protocol run.
 func (c *ConfigReceiver) Validate() error {
 	if c == nil || c.Setup == nil || c.SecretShare == nil || c.Public == nil {
 		return errors.New("doerner: config is missing fields")
+	}
+	if setup, err := c.Setup.MarshalBinary(); err != nil || isZero(setup) {
+		return errors.New("doerner: config has an empty OT setup")
 	}
 	if c.SecretShare.IsZero() || c.Public.IsIdentity() {
 		return errors.New("doerner: config has a zero share or an identity public key")
@@ -69,7 +88,7 @@ func (c *ConfigReceiver) Derive(adjust curve.Scalar, newChainKey []byte) (*Confi
 
 // DeriveChild adjusts the shares to represent the derived public key at a certain index.
 //
-// This will panic if the group is not curve.Secp256k1
+// # This will panic if the group is not curve.Secp256k1
 //
 // This derivation works according to BIP-32, see:
 // https://github.com/bitcoin/bips/blob/master/bip-0032.mediawiki
@@ -97,10 +116,27 @@ type ConfigSender struct {
 	ChainKey []byte
 }
 
+// UnmarshalCBOR restores a configuration (into a value created with EmptyConfigSender) and validates it.
+func (c *ConfigSender) UnmarshalCBOR(data []byte) (err error) {
+	defer func() {
+		if rec := recover(); rec != nil {
+			err = fmt.Errorf("doerner: malformed config: %v", rec)
+		}
+	}()
+	type plain ConfigSender
+	if err = cbor.Unmarshal(data, (*plain)(c)); err != nil {
+		return err
+	}
+	return c.Validate()
+}
+
 // Validate checks that this configuration can take part in a protocol run.
 func (c *ConfigSender) Validate() error {
 	if c == nil || c.Setup == nil || c.SecretShare == nil || c.Public == nil {
 		return errors.New("doerner: config is missing fields")
+	}
+	if setup, err := c.Setup.MarshalBinary(); err != nil || isZero(setup) {
+		return errors.New("doerner: config has an empty OT setup")
 	}
 	if c.SecretShare.IsZero() || c.Public.IsIdentity() {
 		return errors.New("doerner: config has a zero share or an identity public key")
@@ -199,7 +235,7 @@ func (c *ConfigSender) Derive(adjust curve.Scalar, newChainKey []byte) (*ConfigS
 
 // DeriveChild adjusts the shares to represent the derived public key at a certain index.
 //
-// This will panic if the group is not curve.Secp256k1
+// # This will panic if the group is not curve.Secp256k1
 //
 // This derivation works according to BIP-32, see:
 // https://github.com/bitcoin/bips/blob/master/bip-0032.mediawiki
@@ -213,4 +249,13 @@ func (c *ConfigSender) DeriveBIP32(i uint32) (*ConfigSender, error) {
 		return nil, err
 	}
 	return c.Derive(scalar, newChainKey)
+}
+
+func isZero(data []byte) bool {
+	for _, b := range data {
+		if b != 0 {
+			return false
+		}
+	}
+	return true
 }
